@@ -44,6 +44,31 @@ func c12BangNotFollowedByCommand(toks []string) bool {
 	return false
 }
 
+// c12ReallyUnclosedHeredoc: the parser reports "unclosed here-document `D`"
+// and the source indeed has a `<<` operator but no later line that consists
+// of D (leading tabs ignored, as for `<<-`).
+func c12ReallyUnclosedHeredoc(src, perr string) bool {
+	_, rest, ok := strings.Cut(perr, "unclosed here-document `")
+	if !ok {
+		return false
+	}
+	delim, _, ok := strings.Cut(rest, "`")
+	if !ok {
+		return false
+	}
+	i := strings.Index(src, "<<")
+	if i < 0 {
+		return false
+	}
+	lines := strings.Split(src[i:], "\n")
+	for _, ln := range lines[1:] {
+		if strings.TrimLeft(ln, "\t") == delim {
+			return false
+		}
+	}
+	return true
+}
+
 // c12Intentional returns the name of the documented intentional difference
 // the divergence matches, or "". The names refer to the repository's own
 // tables (syntax/parser_test.go, entries marked flipConfirm...).
@@ -56,7 +81,7 @@ func c12Intentional(lang string, toks []string, src, perr string, shellAccepts b
 		return "lone_bang_bash"
 	// errCase("<<EOF", ..., flipConfirmUnclosedHeredoc): "The real shells which
 	// allow unclosed heredocs."
-	case shellAccepts && strings.Contains(perr, "unclosed here-document") && strings.Contains(src, "<<"):
+	case shellAccepts && c12ReallyUnclosedHeredoc(src, perr):
 		return "unclosed_heredoc"
 	}
 	return ""
@@ -77,10 +102,20 @@ func c12FuncBodies(lang, src string) (negated, simple bool) {
 	}
 	syntax.Walk(f, func(n syntax.Node) bool {
 		if fd, ok := n.(*syntax.FuncDecl); ok && fd.Body != nil {
-			if fd.Body.Negated {
-				negated = true
+			// the parser lets the body extend over a following pipe/&&/||
+			// list: look at the first command of that list
+			b := fd.Body
+			for {
+				if b.Negated {
+					negated = true
+				}
+				bc, ok := b.Cmd.(*syntax.BinaryCmd)
+				if !ok || bc.X == nil {
+					break
+				}
+				b = bc.X
 			}
-			switch fd.Body.Cmd.(type) {
+			switch b.Cmd.(type) {
 			case nil, *syntax.CallExpr, *syntax.FuncDecl:
 				simple = true
 			}
@@ -122,9 +157,17 @@ func c12KeywordCalls(lang, src string) []string {
 	found := map[string]bool{}
 	syntax.Walk(f, func(n syntax.Node) bool {
 		switch x := n.(type) {
-		case *syntax.CallExpr:
-			if len(x.Args) > 0 && len(x.Assigns) == 0 {
-				if lit := x.Args[0].Lit(); c12Reserved[lit] {
+		case *syntax.Stmt:
+			// a word that follows a leading redirection is a plain command
+			// name for the shells too (">f !" runs the command `!`): skip
+			if ce, ok := x.Cmd.(*syntax.CallExpr); ok && len(ce.Args) > 0 && len(ce.Assigns) == 0 {
+				lead := false
+				for _, r := range x.Redirs {
+					if r.Pos().Offset() < ce.Args[0].Pos().Offset() {
+						lead = true
+					}
+				}
+				if lit := ce.Args[0].Lit(); c12Reserved[lit] && !lead {
 					found[lit] = true
 				}
 			}
@@ -160,6 +203,162 @@ func c12KeywordAfterLeadingRedirect(toks []string) bool {
 		}
 	}
 	return false
+}
+
+// c12HeredocPendingAtForWordlistNewline: a here-document token is followed,
+// with no newline token in between, by `for NAME in WORD...` whose word list
+// is ended by a newline token (dash then reads the here-document body as the
+// loop's next token).
+func c12HeredocPendingAtForWordlistNewline(toks []string) bool {
+	pending := false
+	for i := 0; i < len(toks); i++ {
+		t := toks[i]
+		if t == "\n" {
+			pending = false
+			continue
+		}
+		if _, ok := c12HeredocBody[t]; ok {
+			pending = true
+		}
+		if t != "for" || i+2 >= len(toks) || toks[i+2] != "in" {
+			continue
+		}
+		j := i + 3
+		for j < len(toks) && toks[j] != "\n" && toks[j] != ";" && toks[j] != "&" && toks[j] != "|" && toks[j] != "&&" && toks[j] != "||" && toks[j] != "(" && toks[j] != ")" && toks[j] != ";;" {
+			if _, ok := c12HeredocBody[toks[j]]; ok {
+				pending = true
+			}
+			j++
+		}
+		if j < len(toks) && toks[j] == "\n" && pending {
+			return true
+		}
+	}
+	return false
+}
+
+func c12IsWordTok(t string) bool {
+	if c12Reserved[t] || c12IsRedir(t) {
+		return false
+	}
+	switch t {
+	case "\n", ";", "&", "|", "&&", "||", "(", ")", ";;":
+		return false
+	}
+	return true
+}
+
+// c12CasePatternClose: toks[j] is a `)` that closes a case pattern list
+// (words separated by `|`, optionally opened by `(`, after `in`, `;;` or a
+// newline that follows one of those).
+func c12CasePatternClose(toks []string, j int) bool {
+	if toks[j] != ")" {
+		return false
+	}
+	k := j - 1
+	if k < 0 || !c12IsWordTok(toks[k]) {
+		return false
+	}
+	for k >= 0 && (c12IsWordTok(toks[k]) || toks[k] == "|") {
+		k--
+	}
+	if k >= 0 && toks[k] == "(" {
+		k--
+	}
+	for k >= 0 && toks[k] == "\n" {
+		k--
+	}
+	return k >= 0 && (toks[k] == "in" || toks[k] == ";;")
+}
+
+// c12HeredocPendingIntoCaseItem: a here-document token is still pending (no
+// newline token since) when a case item starts (its pattern list closes) and
+// the next newline token comes after that.
+func c12HeredocPendingIntoCaseItem(toks []string) bool {
+	pending := false
+	entered := false
+	for j, t := range toks {
+		switch {
+		case t == "\n":
+			if pending && entered {
+				return true
+			}
+			pending, entered = false, false
+		case c12HeredocBody[t] != "":
+			pending = true
+		case pending && c12CasePatternClose(toks, j):
+			entered = true
+		}
+	}
+	return false
+}
+
+// c12HeredocPendingIntoSubshell: a here-document token is still pending (no
+// newline token since) when a subshell opens (`(` in command position, not
+// `( )`), and the next newline token comes before that subshell closes.
+func c12HeredocPendingIntoSubshell(toks []string) bool {
+	pending := false
+	depth := 0
+	for j, t := range toks {
+		switch {
+		case t == "\n":
+			if pending && depth > 0 {
+				return true
+			}
+			pending, depth = false, 0
+		case c12HeredocBody[t] != "":
+			if depth == 0 {
+				pending = true
+			}
+		case t == "(":
+			if depth > 0 {
+				depth++
+			} else if pending && (j == 0 || c12CmdStartAfter[toks[j-1]]) && j+1 < len(toks) && toks[j+1] != ")" {
+				depth = 1
+			}
+		case t == ")":
+			if depth > 0 {
+				depth--
+			}
+		}
+	}
+	return false
+}
+
+// c12InsideCase: some `case` token precedes position i.
+func c12InsideCase(toks []string, i int) bool {
+	for _, t := range toks[:i] {
+		if t == "case" {
+			return true
+		}
+	}
+	return false
+}
+
+// c12ForInCaseQuirk: after a `case` token there is `for NAME`, one or more
+// newline tokens and `in` (newlineIn), or `for NAME in` with `esac` in the
+// word list (esacWord).
+func c12ForInCaseQuirk(toks []string) (newlineIn, esacWord bool) {
+	for i := 0; i+2 < len(toks); i++ {
+		if toks[i] != "for" || !c12InsideCase(toks, i) {
+			continue
+		}
+		j := i + 2
+		for j < len(toks) && toks[j] == "\n" {
+			j++
+		}
+		if j < len(toks) && toks[j] == "in" {
+			if j > i+2 {
+				newlineIn = true
+			}
+			for k := j + 1; k < len(toks) && toks[k] != ";" && toks[k] != "\n"; k++ {
+				if toks[k] == "esac" {
+					esacWord = true
+				}
+			}
+		}
+	}
+	return
 }
 
 var c12CompoundEnd = map[string]bool{"}": true, ")": true, "fi": true, "done": true, "esac": true}
@@ -211,11 +410,29 @@ func c12Class(lang string, toks []string, src, perr string, shellAccepts bool) s
 		if c12ReservedRightAfterCompoundRedirect(toks) {
 			return "accepts-reserved-word-right-after-redirect-of-compound-command"
 		}
+		if lang == "posix" && c12HeredocPendingAtForWordlistNewline(toks) {
+			return "dash-rejects-heredoc-pending-at-for-wordlist-newline"
+		}
+		if lang == "bash" {
+			newlineIn, esacWord := c12ForInCaseQuirk(toks)
+			if esacWord {
+				return "bash-rejects-esac-in-for-wordlist-inside-case"
+			}
+			if newlineIn {
+				return "bash-rejects-for-name-newline-in-inside-case"
+			}
+		}
 		return ""
 	}
 	if perr != "" && shellAccepts {
 		if c12KeywordAfterLeadingRedirect(toks) {
 			return "rejects-reserved-word-after-leading-redirect"
+		}
+		if c12HeredocPendingIntoCaseItem(toks) {
+			return "rejects-heredoc-pending-into-case-item"
+		}
+		if c12HeredocPendingIntoSubshell(toks) {
+			return "rejects-heredoc-pending-into-subshell"
 		}
 		if strings.Contains(perr, "`for foo` must be followed by") {
 			if lang == "posix" && c12ForNameNewlineThen(toks, ";") {
